@@ -257,3 +257,80 @@ pub fn k5(a: &[String]) -> String {
     }
     "0".into()
 }
+
+pub fn k6(a: &[String]) -> String {
+    let (sh, p) = parse_shape(a);
+    let t = u(&a[p]);
+    let l = u(&a[p + 1]) as usize;
+    let dir = tmpdir();
+    let mut g = make_state(&dir, &sh);
+    let mut ff = open!(dir, 8).unwrap();
+    let mut ok = ff.truncate(t).is_ok() && ff.number() == t + 1;
+    let it = new_item(l);
+    ok = ok && ff.append(t + 1, &it).is_ok();
+    g.items.truncate(t as usize);
+    g.items.push(it);
+    for i in 1..=g.items.len() {
+        match ff.retrieve(i as u64) {
+            Ok(Some(v)) if v == g.items[i - 1] => {}
+            _ => ok = false,
+        }
+    }
+    drop(ff);
+    if ok {
+        match open!(dir, 8) {
+            Some(mut f2) => {
+                ok = f2.number() == g.items.len() as u64 + 1;
+                for i in 1..=g.items.len() {
+                    match f2.retrieve(i as u64) {
+                        Ok(Some(v)) if v == g.items[i - 1] => {}
+                        _ => ok = false,
+                    }
+                }
+            }
+            None => ok = false,
+        }
+    }
+    let _ = fs::remove_dir_all(&dir);
+    if ok { "0".into() } else { "1".into() }
+}
+
+pub fn k7(a: &[String]) -> String {
+    let (sh, p) = parse_shape(a);
+    let l = u(&a[p]) as usize;
+    let ms = u(&a[p + 1]);
+    let l2 = u(&a[p + 2]) as usize;
+    let n = sh.len();
+    for cd in 0..=l {
+        let dir = tmpdir();
+        let mut g = make_state(&dir, &sh);
+        let mut ff = open!(dir, ms).unwrap();
+        ff.append(n as u64 + 1, &new_item(l)).unwrap();
+        drop(ff);
+        let head_file = if n == 0 { 0 } else { g.file[n - 1] };
+        let fp = dir.join(format!("blk{:06}", head_file + 1));
+        fs::OpenOptions::new().write(true).open(&fp).unwrap().set_len(cd as u64).unwrap();
+        fs::OpenOptions::new().write(true).open(dir.join("INDEX")).unwrap().set_len(((n + 1) * 12) as u64).unwrap();
+        let mut ok = true;
+        match open!(dir, ms) {
+            Some(mut f2) => {
+                ok = f2.number() == n as u64 + 1;
+                let it: Vec<u8> = (0..l2).map(|k| 0xC0u8 + k as u8).collect();
+                ok = ok && f2.append(n as u64 + 1, &it).is_ok();
+                g.items.push(it);
+                for i in 1..=g.items.len() {
+                    match f2.retrieve(i as u64) {
+                        Ok(Some(v)) if v == g.items[i - 1] => {}
+                        _ => ok = false,
+                    }
+                }
+            }
+            None => ok = false,
+        }
+        let _ = fs::remove_dir_all(&dir);
+        if !ok {
+            return format!("1 {cd}");
+        }
+    }
+    "0".into()
+}
